@@ -97,8 +97,34 @@ def evaluate(case):
     return {"n": n, "outs": outs, "nts": nts, "viol": viols[:3], "sample": sample, "sets": {"states": states}, "cnt": {"transitions": trans}}
 
 
+def defs_order_docs(tier):
+    """defs holding 3-4 gradients in every authored ORDER, of which one is unused / one is used only through a transform
+    (so that a copy replaces it): where a gradient ends up in the output defs must not depend on gradients that get dropped"""
+    st = '<stop offset="0" stop-color="red"/><stop offset="1" stop-color="blue"/>'
+    for ids in (("a", "b", "c", "d"), ("g", "g_0", "h", "Z")):
+        for perm in itertools.permutations(ids):
+            for special in list(range(4)) + [None]:
+                for mode in ("unused", "transformed"):
+                    if special is None and mode == "transformed":
+                        continue
+                    if tier == "quick" and ids[0] == "g" and mode == "unused":
+                        continue
+                    defs = "".join(f'<linearGradient id="{i}" x2="{k + 1}">{st}</linearGradient>' for k, i in enumerate(perm))
+                    body = ""
+                    for k, i in enumerate(ids):
+                        if special is not None and ids[special] == i:
+                            if mode == "unused":
+                                continue
+                            body += f'<rect x="{k * 20}" width="10" height="10" fill="url(#{i})" transform="translate(1 {k})"/>'
+                        else:
+                            body += f'<rect x="{k * 20}" width="10" height="10" fill="url(#{i})"/>'
+                    yield f'<svg {G.NS} viewBox="0 0 100 100"><defs>{defs}</defs>{body}</svg>'
+
+
 def corpus(tier, seed):
     """yield (source-label, document) - the union of the other checks' enumerated corpora"""
+    for d in defs_order_docs(tier):
+        yield "DEFS", d
     base = G.kinds("base")
     groups = G.kinds("groups")
     for k in base + groups:
@@ -132,7 +158,7 @@ def corpus(tier, seed):
         if hasattr(m, "corpus_for_c07"):
             for d in m.corpus_for_c07(tier, seed):
                 yield modname.upper(), d
-    for f in sorted(glob.glob("/repo/tests/*.svg")):
+    for f in sorted(glob.glob(os.environ.get("VERIF_REPO", "/repo") + "/tests/*.svg")):
         try:
             yield "F:" + os.path.basename(f), open(f).read()
         except Exception:
@@ -166,7 +192,7 @@ def cases(tier, seed):
 def run(run):
     run.rule = (
         "E1 on the conversion function: roots = the enumerated corpora of C01 (all single kinds, all pairs of base kinds, root attribute), C08 (reference sharing), "
-        "the rendering checks' corpora (C02-C06, C19) and every svg file under /repo/tests; options: default, plus drop_unsupported=True on documents with unsupported elements and allow_text (+drop_unsupported) on documents with text; ndigits 3 (and 0) everywhere, all of 0..6 on every 16th (quick) / 4th (thorough) "
+        "all authored orders of 4 gradients in defs with one unused / one replaced by a transformed copy (2 id sets), the rendering checks' corpora (C02-C06, C19) and every svg file under /repo/tests; options: default, plus drop_unsupported=True on documents with unsupported elements and allow_text (+drop_unsupported) on documents with text; ndigits 3 (and 0) everywhere, all of 0..6 on every 16th (quick) / 4th (thorough) "
         "root and on the repository files. From each root: root -> out1 -> out2 -> out3. Oracle: out2 == out1 and out3 == out2 byte for byte; "
         "SVG.fromstring(out1).checkpicosvg() == (). states = distinct documents seen, transitions = conversions. Non-trivial = root converts and out1 != root."
     )
